@@ -204,6 +204,7 @@ func (p *IGMPv3Query) UnmarshalBinary(data []byte) error {
 	if len(data) < 12+int(p.NumberOfSources)*4 {
 		return fmt.Errorf("The []byte is too short to unmarshal a full IGMPv3Query message.")
 	}
+	p.SourceAddresses = nil
 	for j := 0; j < int(p.NumberOfSources); j++ {
 		p.SourceAddresses = append(p.SourceAddresses, data[n:n+4])
 		n += 4
